@@ -60,7 +60,7 @@ section
 variable {C : Codec} (hC : C.Valid)
 include hC
 
-theorem fmtDur_spec {d : Int} (hd : d.natAbs < durMax.toNat) :
+theorem fmtDur_spec {d : Int} (hd : d.natAbs ≤ durMax.toNat) :
     ∃ (q n : Nat), C.fmtDur d = decText (decide (d < 0)) q ∧
       C.parseDur (C.fmtDur d) = some (if d < 0 then -(n : Int) else n) ∧
       q * 10000 ≤ d.natAbs + 5000 ∧ d.natAbs ≤ q * 10000 + 5000 ∧ n ≤ q * 10000 ∧ q * 10000 ≤ n + 1 := by
@@ -73,16 +73,16 @@ theorem fmtDur_spec {d : Int} (hd : d.natAbs < durMax.toNat) :
   rw [h1, h4]
   by_cases hneg : d < 0 <;> simp [hneg]
 
-theorem durUnmarshal_fmt {d : Int} (hd : d.natAbs < durMax.toNat) :
+theorem durUnmarshal_fmt {d : Int} (hd : d.natAbs ≤ durMax.toNat) :
     durUnmarshal C (C.fmtDur d) = .ok (C.requant d) := by
   obtain ⟨q, n, _, h2, _⟩ := fmtDur_spec hC hd
   simp [durUnmarshal, Codec.requant, h2]
 
-theorem fmtDur_chars {d : Int} (hd : d.natAbs < durMax.toNat) : (C.fmtDur d).all durChar = true := by
+theorem fmtDur_chars {d : Int} (hd : d.natAbs ≤ durMax.toNat) : (C.fmtDur d).all durChar = true := by
   obtain ⟨q, n, h1, _⟩ := fmtDur_spec hC hd
   rw [h1]; exact decText_chars _ _
 
-theorem requant_ne_zero {d : Int} (hd : d.natAbs < durMax.toNat) (h5 : 5000 < d.natAbs) : C.requant d ≠ 0 := by
+theorem requant_ne_zero {d : Int} (hd : d.natAbs ≤ durMax.toNat) (h5 : 5000 < d.natAbs) : C.requant d ≠ 0 := by
   obtain ⟨q, n, _, h2, h3, h4, h5', h6⟩ := fmtDur_spec hC hd
   simp only [Codec.requant, h2, Option.getD_some]
   have hn : 0 < n := by omega
@@ -90,21 +90,21 @@ theorem requant_ne_zero {d : Int} (hd : d.natAbs < durMax.toNat) (h5 : 5000 < d.
 
 end
 
-theorem natAbs_lt_of_posDur {d : Int} (h : posDur d = true) : d.natAbs < durMax.toNat ∧ 5000 < d.natAbs := by
+theorem natAbs_lt_of_posDur {d : Int} (h : posDur d = true) : d.natAbs ≤ durMax.toNat ∧ 5000 < d.natAbs := by
   simp only [posDur, Bool.and_eq_true, decide_eq_true_eq] at h
   have : durMax.toNat = 1000000000000000 := by decide
   have : durMax = 1000000000000000 := by decide
   omega
 
-theorem natAbs_lt_of_nnDur {d : Int} (h : nnDur d = true) : d.natAbs < durMax.toNat := by
+theorem natAbs_lt_of_nnDur {d : Int} (h : nnDur d = true) : d.natAbs ≤ durMax.toNat := by
   simp only [nnDur, Bool.and_eq_true, decide_eq_true_eq] at h
   have : durMax.toNat = 1000000000000000 := by decide
   have : durMax = 1000000000000000 := by decide
   omega
 
-theorem natAbs_lt_of_signedDur {d : Int} (h : signedDur d = true) : d.natAbs < durMax.toNat ∧ 5000 < d.natAbs := by
+theorem natAbs_lt_of_signedDur {d : Int} (h : signedDur d = true) : d.natAbs ≤ durMax.toNat ∧ 5000 < d.natAbs := by
   simp only [signedDur, Bool.and_eq_true, decide_eq_true_eq] at h
-  exact ⟨h.2, h.1⟩
+  exact ⟨Nat.le_of_lt h.2, h.1⟩
 
 /-! ## rendered attribute lists of the tags -/
 
